@@ -42,7 +42,23 @@ type c12Case struct {
 	KilledAt string   `json:"killed_at,omitempty"`
 }
 
-var c12Scenarios = []string{"pull-new", "pull-update", "create-files", "create-from-replace", "copy", "delete-shared", "delete-many-layers"}
+var c12Scenarios = []string{"pull-new", "pull-update", "create-files", "create-from-replace", "copy", "delete-shared", "delete-many-layers", "pull-update-backup", "create-replace-backup"}
+
+// c12Target: the manifest (path suffix) the scenario's operation is about; every other manifest of the prior
+// state belongs to a model that is not involved and must come through unchanged.
+func c12Target(sc string) string {
+	switch {
+	case strings.HasPrefix(sc, "pull"):
+		return "/ns/pm/latest"
+	case sc == "create-files":
+		return "library/newm/latest"
+	case strings.HasPrefix(sc, "create"):
+		return "library/victim/latest"
+	case sc == "copy":
+		return "library/cp/latest"
+	}
+	return "library/del/latest"
+}
 var c12Classes = []string{"renameat,renameat2,rename", "unlinkat,unlink", "openat", "write,pwrite64", "ftruncate", "mkdirat,mkdir", "fchmodat,chmod,fchmod"}
 
 type c12World struct {
@@ -72,7 +88,7 @@ func c12Publish(reg *FakeReg, pool [][]byte, repoTag string, blob int, extra str
 // c12Op runs the scenario's operation against srv. retry=true: the operation is being repeated after a crash.
 func (w *c12World) op(sc string, srv *Srv, reg *FakeReg, onLine func(int, map[string]any), retry bool) apiResult {
 	switch sc {
-	case "pull-new", "pull-update":
+	case "pull-new", "pull-update", "pull-update-backup":
 		return srv.Pull(reg.RegHost+"/ns/pm:latest", true, onLine)
 	case "create-files":
 		d := sha(w.pool[1])
@@ -80,7 +96,7 @@ func (w *c12World) op(sc string, srv *Srv, reg *FakeReg, onLine func(int, map[st
 			return apiResult{Status: st, Err: "blob upload: " + body}
 		}
 		return srv.Create(map[string]any{"model": "newm", "files": map[string]string{"m.gguf": d}, "template": "{{ .Prompt }} new", "system": "sys new"}, onLine)
-	case "create-from-replace":
+	case "create-from-replace", "create-replace-backup":
 		return srv.Create(map[string]any{"model": "victim", "from": "keep", "system": "sys two", "parameters": map[string]any{"temperature": 0.5}}, onLine)
 	case "copy":
 		return srv.Copy("keep", "cp")
@@ -123,17 +139,30 @@ func (w *c12World) setup(sc string) (string, *FakeReg, storeState, string) {
 	switch sc {
 	case "pull-new":
 		c12Publish(reg, w.pool, "ns/pm:latest", 0, "v1")
-	case "pull-update":
+	case "pull-update", "pull-update-backup":
 		c12Publish(reg, w.pool, "ns/pm:latest", 0, "v1")
 		if r := srv.Pull(reg.RegHost+"/ns/pm:latest", true, nil); !r.OK() {
 			srv.Kill()
 			return fail("setup pull v1: " + r.Err)
 		}
+		// "-backup": the user kept a copy of the old version under another name before updating
+		if sc == "pull-update-backup" {
+			if r := srv.Copy(reg.RegHost+"/ns/pm:latest", "pmbackup"); !r.OK() {
+				srv.Kill()
+				return fail("setup copy pmbackup: " + r.Err)
+			}
+		}
 		c12Publish(reg, w.pool, "ns/pm:latest", 0, "v2")
-	case "create-from-replace":
+	case "create-from-replace", "create-replace-backup":
 		if r := srv.Create(map[string]any{"model": "victim", "files": map[string]string{"m.gguf": d0}, "template": "{{ .Prompt }} t1", "system": "sys one"}, nil); !r.OK() {
 			srv.Kill()
 			return fail("setup create victim: " + r.Err)
+		}
+		if sc == "create-replace-backup" {
+			if r := srv.Copy("victim", "victimbackup"); !r.OK() {
+				srv.Kill()
+				return fail("setup copy victimbackup: " + r.Err)
+			}
 		}
 	case "delete-shared":
 		if r := srv.Create(map[string]any{"model": "del", "from": "keep", "system": "sys del"}, nil); !r.OK() {
@@ -233,7 +262,7 @@ func straceAttach(pid int, class string, n int, tracePath string) (*exec.Cmd, er
 type c12Viol struct{ Sig, What string }
 
 // c12Check: every manifest that parses is complete; the uninvolved model "keep" is byte-identical.
-func c12Check(models string, prior storeState, phase string) (vs []c12Viol) {
+func c12Check(models string, prior storeState, phase, scenario string) (vs []c12Viol) {
 	st := readStore(models, true)
 	for p, raw := range st.Manifests {
 		_, problems, parsed := checkManifest(models, raw)
@@ -242,16 +271,16 @@ func c12Check(models string, prior storeState, phase string) (vs []c12Viol) {
 		}
 	}
 	for p, raw := range prior.Manifests {
-		if !strings.HasSuffix(filepath.ToSlash(p), "library/keep/latest") {
+		if strings.HasSuffix(filepath.ToSlash(p), c12Target(scenario)) {
 			continue
 		}
 		now, ok := st.Manifests[p]
 		if !ok || !bytes.Equal(now, raw) {
-			vs = append(vs, c12Viol{"uninvolved-model-changed:" + phase, fmt.Sprintf("%s: manifest of the uninvolved model keep changed or disappeared", phase)})
+			vs = append(vs, c12Viol{"uninvolved-model-changed:" + phase, fmt.Sprintf("%s: manifest %s of a model that is not involved in the operation changed or disappeared", phase, p)})
 			continue
 		}
 		if _, problems, _ := checkManifest(models, raw); len(problems) > 0 {
-			vs = append(vs, c12Viol{"uninvolved-model-damaged:" + phase, fmt.Sprintf("%s: uninvolved model keep: %s", phase, strings.Join(problems, "; "))})
+			vs = append(vs, c12Viol{"uninvolved-model-damaged:" + phase, fmt.Sprintf("%s: uninvolved model %s: %s", phase, p, strings.Join(problems, "; "))})
 		}
 	}
 	return vs
@@ -314,7 +343,7 @@ func (w *c12World) run(c *c12Case, rep *kit.Report) (vs []c12Viol, inconclusive 
 		reg = NewFakeReg()
 		defer reg.Close()
 		v := "v1"
-		if c.Scenario == "pull-update" {
+		if strings.HasPrefix(c.Scenario, "pull-update") {
 			v = "v2"
 		}
 		c12Publish(reg, w.pool, "ns/pm:latest", 0, v)
@@ -419,7 +448,7 @@ func (w *c12World) run(c *c12Case, rep *kit.Report) (vs []c12Viol, inconclusive 
 	_ = tag
 	if c.Killed {
 		rep.Count("killed_"+c.Crash.Kind, 1)
-		for _, v := range c12Check(models, prior, "after-kill") {
+		for _, v := range c12Check(models, prior, "after-kill", c.Scenario) {
 			add(v)
 		}
 	} else {
@@ -445,7 +474,7 @@ func (w *c12World) run(c *c12Case, rep *kit.Report) (vs []c12Viol, inconclusive 
 		return vs, ""
 	}
 	srv = s2
-	for _, v := range c12Check(models, prior, "after-restart") {
+	for _, v := range c12Check(models, prior, "after-restart", c.Scenario) {
 		add(v)
 	}
 	if names, tr := srv.Tags(); tr.OK() {
@@ -464,7 +493,7 @@ func (w *c12World) run(c *c12Case, rep *kit.Report) (vs []c12Viol, inconclusive 
 		add(c12Viol{"retry-failed", "repeating the interrupted operation failed: " + r2.Err})
 		return vs, ""
 	}
-	for _, v := range c12Check(models, prior, "after-retry") {
+	for _, v := range c12Check(models, prior, "after-retry", c.Scenario) {
 		add(v)
 	}
 	// final tree vs control (after one more pruning restart unless this case runs without pruning)
@@ -488,7 +517,7 @@ func runC12() {
 	rep := kit.NewReport("C12")
 	cfg := rep.Cfg()
 	defer rep.Flush()
-	rep.Set("rule", "case i = PRNG(seed,'C12',i): scenario i mod 7 of {pull new, pull update of a tag (shared layer), create from uploaded file, re-create an existing model from another (prunes replaced layers), copy, delete a model that shares layers, delete a model with 24 layers of its own} on a prepared store that also holds an uninvolved model; crash = SIGKILL of the real server at one point: strace-injected before the N-th syscall of a thread in one class of {rename*, unlink*, openat, write/pwrite64, ftruncate, mkdir*, chmod*} (N 1-14, GOMAXPROCS 1 or 4), or by the fake registry on arrival of the r-th manifest/HEAD/blob/CDN request or after b bytes of the r-th CDN body, or by the client after progress line m. Then: store inspected, real restart (start-up repair; 1/4 with OLLAMA_NOPRUNE), inspected again, operation repeated, inspected, restart, tree compared with the control run's. Non-trivial & distinct = distinct (scenario, crash kind, class or request kind, N / byte bucket, syscall+path class actually killed) among runs in which the server really was killed")
+	rep.Set("rule", "case i = PRNG(seed,'C12',i): scenario i mod 9 of {pull new, pull update of a tag (shared layer), create from uploaded file, re-create an existing model from another (prunes replaced layers), copy, delete a model that shares layers, delete a model with 24 layers of its own, pull update / re-create of a model of which a copy under another name was made before} on a prepared store that also holds uninvolved models (every manifest of the prior state other than the operation's target must come through byte-identical with intact layers); crash = SIGKILL of the real server at one point: strace-injected before the N-th syscall of a thread in one class of {rename*, unlink*, openat, write/pwrite64, ftruncate, mkdir*, chmod*} (N 1-14, GOMAXPROCS 1 or 4), or by the fake registry on arrival of the r-th manifest/HEAD/blob/CDN request or after b bytes of the r-th CDN body, or by the client after progress line m. Then: store inspected, real restart (start-up repair; 1/4 with OLLAMA_NOPRUNE), inspected again, operation repeated, inspected, restart, tree compared with the control run's. Non-trivial & distinct = distinct (scenario, crash kind, class or request kind, N / byte bucket, syscall+path class actually killed) among runs in which the server really was killed")
 	rep.Set("assumptions", []string{"crash model = process death (SIGKILL): completed syscalls persist (page cache survives); power loss / missing fsync is outside the statement", "strace's when=N counts per thread, so not every global ordinal is reachable; the points actually hit are listed in coverage.killed_points"})
 	w := &c12World{bin: os.Getenv("VERIF_OLLAMA_BIN"), pool: c04Pool(nil), tmpl: map[string]string{}, control: map[string]storeState{}, regs: map[string]*FakeReg{}, setupErr: map[string]string{}}
 	var err error
@@ -497,7 +526,7 @@ func runC12() {
 		panic(err)
 	}
 	defer os.RemoveAll(w.work)
-	n := cfg.N(210, 8400)
+	n := cfg.N(270, 10800)
 	replayIdx := -1
 	if cfg.Replay != "" {
 		var rc struct {
